@@ -144,11 +144,36 @@ def build_sched(root=SCHED, timeout=3000):
 # scenarios
 # ---------------------------------------------------------------------------------------------
 
+CALL_OPS = ("setb", "setbs")
+
+
+def is_call(tx):
+    """a unit of work that is not a `tx … endtx` block but a public call running its own transaction(s)"""
+    return len(tx) == 1 and tx[0].split()[0] in CALL_OPS
+
+
+def unit_lines(tx):
+    return list(tx) if is_call(tx) else ["tx"] + list(tx) + ["endtx"]
+
+
+def committed_result(r):
+    return r.startswith("tx ok") or r == "ok" or r.startswith("ok ")
+
+
+def commit_order(o):
+    """observed commit order without repetitions (a public call may run several transactions: first commit counts)"""
+    out = []
+    for x in o["commit_order"]:
+        if tuple(x) not in out:
+            out.append(tuple(x))
+    return out
+
+
 class Scenario:
     def __init__(self, name, init, threads, params=None, tags=()):
         self.name = name
         self.init = init                    # protocol lines
-        self.threads = threads              # [[tx, ...], ...], tx = [op, ...]
+        self.threads = threads              # [[unit, ...], ...], unit = [op, ...] (a block) or [call line]
         self.params = dict(params or {})
         self.tags = set(tags)
 
@@ -159,7 +184,7 @@ class Scenario:
         for th in self.threads:
             out.append("thread")
             for tx in th:
-                out += ["tx"] + list(tx) + ["endtx"]
+                out += unit_lines(tx)
         out.append("end")
         return out
 
@@ -386,6 +411,137 @@ def d3_scenarios():
     return out
 
 
+def setbs_scenarios():
+    """`set_betas` / `set_beta` are public calls that run their own transaction: a concurrent read-only transaction reading
+    several images of the dart must see a row that some call wrote (or the initial one), never a mix.  The calls are raw
+    (no well-formedness guarantee): the final map is only compared with the sequential one."""
+    out = []
+    free = [gens.load_line(2, 4, 0, rows2(4, []), [0] * 5)]
+    row = ["beta 0 1", "beta 1 1", "beta 2 1"]
+    fc = {"full_cap": 100000}
+    out.append(Scenario("setbs-row3", free, [[["setbs 1 2 3 4"]], [row]], fc, tags={"setbs", "raw"}))
+    out.append(Scenario("setbs-row3-twice", free, [[["setbs 1 2 3 4"], ["setbs 1 3 4 2"]], [row]], fc, tags={"setbs", "raw"}))
+    out.append(Scenario("setbs-row2", free, [[["setbs 1 2 3 0"], ["setbs 1 0 0 4"]], [["beta 1 1", "beta 0 1"], ["beta 2 1", "beta 1 1"]]],
+                        fc, tags={"setbs", "raw"}))
+    out.append(Scenario("setbs-two-writers", free, [[["setbs 1 2 2 2"]], [["setbs 1 3 3 3"]], [row]], {"full_cap": 30000}, tags={"setbs", "raw"}))
+    out.append(Scenario("setbs-several-darts", free, [[["setbs 1 0 2 0"], ["setbs 2 1 0 0"]], [["beta 1 1", "beta 0 2", "beta 2 1"]],
+                                                      [["beta 0 2", "beta 1 2", "beta 1 1"]]], {"full_cap": 30000}, tags={"setbs", "raw"}))
+    # a linked row replaced at once, read through the id / orbit queries (they walk several images of the dart)
+    tri = [gens.load_line(2, 6, 0, rows2(6, [[1, 2, 3]], pairs=[(1, 4)]), [0] * 7)]
+    out.append(Scenario("setbs-vs-orbit", tri, [[["setbs 1 0 0 0"], ["setbs 1 3 2 4"]], [["orbit f 2", "beta 2 1", "beta 1 1", "beta 0 1"]]],
+                        fc, tags={"setbs", "raw"}))
+    out.append(Scenario("setb-vs-row", free, [[["setb 1 1 2"], ["setb 0 1 3"]], [row], [["link 2 1 4"]]], {"full_cap": 30000}, tags={"setbs", "raw"}))
+    # 3-D
+    free3 = [gens.load_line(3, 4, 0, rows3(4), [0] * 5)]
+    out.append(Scenario("setbs3-row4", free3, [[["setbs 1 2 3 4 2"], ["setbs 1 0 0 0 0"]], [["beta 0 1", "beta 1 1", "beta 2 1", "beta 3 1"]]],
+                        fc, tags={"setbs", "raw"}))
+    return out
+
+
+# --- remeshing kernels -------------------------------------------------------------------------
+
+def normalize_init(lines, mask=0):
+    """any single-threaded protocol script (grid builders, `add`, sews …) -> `load` + `wv` lines of the map it builds
+    (what hcsched understands); 2-D, vertices only"""
+    rc, out = hv.run_bin(hv.HCIMPL, "\n".join(lines + ["snap"]) + "\n")
+    snap = [x for x in out if x.startswith("snap ")][-1]
+    sn = gens.parse_snap(snap)
+    n = sn["n"] - 1
+    init = [gens.load_line(2, n, mask, [sn["b0"], sn["b1"], sn["b2"]], sn["u"])]
+    for d, v in enumerate(sn["a0"]):
+        if v != "none":
+            x, y, _ = v.strip("()").split(",")
+            init.append(f"wv {d} {x} {y}")
+    return init
+
+
+def two_triangles(sewn, spare):
+    """triangles 1,2,3 = (0,0),(1,0),(0,1) and 4,5,6 = (0,1),(1,0),(1,1) (dart 2 faces dart 4), separate or 2-sewn, + spare darts"""
+    pts = {1: (0, 0), 2: (1, 0), 3: (0, 1), 4: (0, 1), 5: (1, 0), 6: (1, 1)}
+    init = [gens.load_line(2, 6 + spare, 0, rows2(6 + spare, [[1, 2, 3], [4, 5, 6]]), [0] * (7 + spare))]
+    init += [f"wv {d} {p[0]} {p[1]}" for d, p in pts.items()]
+    return init + (["sew 2 2 4"] if sewn else [])
+
+
+def remesh_scenarios():
+    """remeshing kernels (cut_outer_edge, cut_inner_edge, swap_edge, collapse_edge; vertex insertion, triangulation)
+    concurrent with sews / unsews / other kernels on neighbouring cells of small triangle meshes.
+    cut-vs-sew-*: the sew renames an end point of the cut edge (its coordinates move to another id): a cut that computed
+    the old id before the sew committed finds no coordinates there — the kernel's `retry()` arm (torn snapshot)."""
+    out = []
+    sep = two_triangles(False, 3)
+    out.append(Scenario("cut-vs-sew-origin", sep, [[["cutout 5 7 8 9"]], [["sew 2 2 4"]]], tags={"remesh"}))
+    out.append(Scenario("cut-vs-sew-origin-vid", sep, [[["vid 5", "cutout 5 7 8 9"]], [["sew 2 2 4"]]], tags={"remesh"}))
+    out.append(Scenario("cut-vs-sew-end", sep, [[["vid 4", "cutout 6 7 8 9"]], [["sew 2 2 4"]]], tags={"remesh"}))
+    out.append(Scenario("cut-vs-sew-left", sep, [[["cutout 1 7 8 9"], ["rv 2"]], [["sew 2 2 4"]]], tags={"remesh"}))
+    sewn = normalize_init(two_triangles(True, 12))
+    out.append(Scenario("cut-vs-unsew", sewn, [[["cutout 5 7 8 9"]], [["unsew 2 2"]]], tags={"remesh"}))
+    out.append(Scenario("cutout-vs-cutout", sewn, [[["cutout 1 7 8 9"]], [["cutout 5 10 11 12"]]], tags={"remesh"}))
+    out.append(Scenario("cutin-vs-cutout", sewn, [[["cutin 2 7 8 9 10 11 12"]], [["cutout 5 13 14 15"]]], tags={"remesh"}))
+    out.append(Scenario("cutin-vs-unsew", sewn, [[["cutin 2 7 8 9 10 11 12"]], [["unsew 2 4"], ["sew 2 2 4"]]], tags={"remesh"}))
+    out.append(Scenario("swap-vs-cutout", sewn, [[["swap 2"]], [["cutout 1 7 8 9"]]], tags={"remesh"}))
+    out.append(Scenario("swap-vs-swap-back", sewn, [[["swap 2"], ["swap 2"]], [["vid 3", "rv 3", "orbit f 1"]]], tags={"remesh"}))
+    out.append(Scenario("collapse-vs-cutout", sewn, [[["collapse 2"]], [["cutout 5 7 8 9"]]], tags={"remesh"}))
+    out.append(Scenario("insv-vs-cutout", sewn, [[["insv 2 7 8 -"]], [["cutout 5 9 10 11"]]], tags={"remesh"}))
+    out.append(Scenario("insv-vs-swap", sewn, [[["insv 1 7 0 1/4"]], [["swap 2"]]], tags={"remesh"}))
+    # 2 x 1 split grid: triangles (1,2,3) (4,5,6) | (7,8,9) (10,11,12), inner edges 2|4, 5|9, 8|10; spare darts 13..27
+    g = normalize_init(["grid 2 1 0 ncl 0 0 2 1 1 1", "add 15"])
+    out.append(Scenario("grid-collapse-vs-cutout", g, [[["collapse 5"]], [["cutout 11 13 14 15"]]], tags={"remesh"}))
+    out.append(Scenario("grid-collapse-vs-swap", g, [[["collapse 5"]], [["swap 2"]]], tags={"remesh"}))
+    out.append(Scenario("grid-collapse-vs-unsew", g, [[["collapse 8"]], [["unsew 2 2"]]], tags={"remesh"}))
+    out.append(Scenario("grid-swap-vs-swap", g, [[["swap 2"]], [["swap 8"]], [["swap 5"]]], {"preempt": 1, "cap": 20000, "random": 300, "pct": 300}, tags={"remesh"}))
+    out.append(Scenario("grid-cutin-vs-cutin", g, [[["cutin 2 13 14 15 16 17 18"]], [["cutin 8 19 20 21 22 23 24"]]], tags={"remesh"}))
+    out.append(Scenario("grid-cutin-vs-swap", g, [[["cutin 5 13 14 15 16 17 18"]], [["swap 2"]]], tags={"remesh"}))
+    out.append(Scenario("grid-cutout-vs-unsew-sew", g, [[["cutout 1 13 14 15"], ["cutout 6 16 17 18"]], [["unsew 2 5"], ["sew 2 5 9"]]], tags={"remesh"}))
+    # quadrangles (2 x 1 plain grid: faces 1..4 | 5..8): triangulation kernels next to an unsew / a vertex insertion
+    q = normalize_init(["grid 2 0 0 ncl 0 0 2 1 1 1", "add 8"])
+    out.append(Scenario("fan-vs-unsew", q, [[["fan 1 2 9 10"]], [["unsew 2 2"]]], tags={"remesh"}))
+    out.append(Scenario("earclip-vs-fan", q, [[["earclip ccw 1 2 9 10"]], [["fan 5 2 11 12"]]], tags={"remesh"}))
+    out.append(Scenario("fan-vs-insv", q, [[["fan 1 2 9 10"]], [["insv 2 11 12 -"]]], tags={"remesh"}))
+    return out
+
+
+def remesh_random(rng, count, params=None, nthreads=(2,)):
+    """random mixes on the 2 x 1 split grid: every thread gets its own spare darts; ops that succeed on the initial map"""
+    g = normalize_init(["grid 2 1 0 ncl 0 0 2 1 1 1", "add 24"])
+    inner, outer = [2, 4, 5, 9, 8, 10], [1, 3, 6, 7, 11, 12]
+
+    def pool(sp):
+        ops = [f"cutout {e} {sp[0]} {sp[1]} {sp[2]}" for e in outer]
+        ops += [f"cutin {e} " + " ".join(map(str, sp[:6])) for e in inner]
+        ops += [f"swap {e}" for e in inner] + [f"collapse {e}" for e in inner + outer]
+        ops += [f"unsew 2 {e}" for e in inner] + [f"insv {e} {sp[6]} {sp[7]} -" for e in inner] + [f"insv {e} {sp[6]} 0 1/4" for e in outer]
+        ops += [f"wv {d} {gens.dy(rng)} {gens.dy(rng)}" for d in (1, 2, 3, 6)]
+        return ops
+
+    spares = [list(range(13 + 8 * t, 21 + 8 * t)) for t in range(3)]
+    text = []
+    pools = [pool(sp) for sp in spares]
+    for t, ops in enumerate(pools):
+        for k, o in enumerate(ops):
+            text += [f"# case {t}.{k}"] + g + [o]
+    rc, outl = hv.run_bin(hv.HCIMPL, "\n".join(text) + "\n")
+    good = {0: [], 1: [], 2: []}
+    for cid, ls in hv.split_outputs(outl):
+        t, k = map(int, cid.split("."))
+        if ls and (ls[-1] == "ok" or ls[-1].startswith("ok ")):
+            good[t].append(pools[t][k])
+    obs = ["vid 5", "rv 2", "orbit v 9", "fid 4", "orbit f 7", "eid 9"]
+    out = []
+    for c in range(count):
+        threads = []
+        for t in range(rng.choice(nthreads)):
+            txs = []
+            for _ in range(rng.choice((1, 1, 2))):
+                tx = [rng.choice(good[t])]
+                if rng.random() < 0.4:
+                    tx.insert(rng.randint(0, 1), rng.choice(obs))
+                txs.append(tx)
+            threads.append(txs)
+        out.append(Scenario(f"rmsh{c}", g, threads, params, tags={"remesh-random"}))
+    return out
+
+
 DEEP = {"fan-sew-obs-m0", "fan-unsew-resew-m1", "sew3-unsew3-vs-queries", "query-vs-link-unlink", "d4-sew3-vs-link1-m0",
         "d3-insv-vs-insv"}
 
@@ -402,7 +558,8 @@ def scenarios(tier, seed):
     # hand-written 2-thread scenarios: 3 preemptions in both tiers; the DEEP ones 4 in the thorough tier
     mid = {"preempt": 3, "cap": 300000 if quick else 1000000}
     deep = {"preempt": 3 if quick else 4, "cap": 300000 if quick else 1500000}
-    hand = rmw_scenarios() + link_scenarios() + query_scenarios() + fan_scenarios() + three_d_scenarios() + d4_scenarios() + d3_scenarios()
+    hand = rmw_scenarios() + link_scenarios() + query_scenarios() + fan_scenarios() + three_d_scenarios() + d4_scenarios() + d3_scenarios() \
+        + setbs_scenarios() + remesh_scenarios()
     for s in hand:
         if s.name in DEEP:
             s.params.update(deep)
@@ -415,9 +572,11 @@ def scenarios(tier, seed):
     big = {"preempt": 1, "cap": 5000, "random": 300, "pct": 300} if quick else {"preempt": 2, "cap": 50000, "random": 3000, "pct": 3000}
     scs += random_scenarios(rng, 12 if quick else 100, nthreads=(3, 4), params=big, prefix="rnd-mt")
     scs += random_scenarios(rng, 4 if quick else 40, nthreads=(3,), params=big, mask=31, prefix="rnd3d-mt", dim=3)
+    scs += remesh_random(rng, 24 if quick else 200, params=rp)
     if not quick:
         # the hand-written scenarios again with long random / PCT tails
-        for s in rmw_scenarios() + link_scenarios() + query_scenarios() + fan_scenarios() + three_d_scenarios() + d4_scenarios() + d3_scenarios():
+        for s in rmw_scenarios() + link_scenarios() + query_scenarios() + fan_scenarios() + three_d_scenarios() + d4_scenarios() + d3_scenarios() \
+                + setbs_scenarios() + remesh_scenarios():
             s.name += "-tail"
             s.params = {"dfs": 0, "random": 5000, "pct": 5000}
             scs.append(s)
@@ -485,7 +644,7 @@ STATS = {}
 def seq_script(sc, order):
     lines = list(sc.init)
     for t, k in order:
-        lines += ["tx"] + list(sc.threads[t][k]) + ["endtx"]
+        lines += unit_lines(sc.threads[t][k])
     return lines + ["snap", "wf"]
 
 
@@ -494,7 +653,7 @@ def parse_seq(sc, order, out):
     pos = len(sc.init)
     res = []
     for t, k in order:
-        pos += 1 + len(sc.threads[t][k])
+        pos += len(unit_lines(sc.threads[t][k])) - 1
         res.append(out[pos] if pos < len(out) else "<missing>")
         pos += 1
     snap = out[pos] if pos < len(out) else "<missing>"
@@ -532,7 +691,7 @@ def explain_errors(sc, o, order):
     unexplained = []
     for t, txs in enumerate(o["results"]):
         for k, r in enumerate(txs):
-            if r.startswith("tx ok") or r == "tx panic":
+            if committed_result(r) or r in ("tx panic", "panic"):
                 continue
             lo = max([i + 1 for i, (a, b) in enumerate(order) if a == t and b < k], default=0)
             hi = min([i for i, (a, b) in enumerate(order) if a == t and b > k], default=len(order))
@@ -551,15 +710,17 @@ def explain_errors(sc, o, order):
 def oracle(case, li):
     """li = hcimpl transcript of the sequential script in the observed commit order"""
     sc, o = case.meta["scenario"], case.meta["outcome"]
-    order = [tuple(x) for x in o["commit_order"]]
+    order = commit_order(o)
+    if len(order) != len(o["commit_order"]):
+        STATS["calls_with_several_commits"] = STATS.get("calls_with_several_commits", 0) + 1
     if any(x.startswith("<missing") for x in li):
         return "driver died on the sequential script"
     if o["status"] != "ok":
         return f"{o['status']}: the schedule ends in {o['status']}"
     flat = {(t, k): r for t, txs in enumerate(o["results"]) for k, r in enumerate(txs)}
-    if any(r == "tx panic" for r in flat.values()):
-        return "panic: a transaction panicked: " + ", ".join(f"thread {t} tx {k}" for (t, k), r in flat.items() if r == "tx panic")
-    okset = sorted(tk for tk, r in flat.items() if r.startswith("tx ok"))
+    if any(r in ("tx panic", "panic") for r in flat.values()):
+        return "panic: a transaction panicked: " + ", ".join(f"thread {t} tx {k}" for (t, k), r in flat.items() if r in ("tx panic", "panic"))
+    okset = sorted(tk for tk, r in flat.items() if committed_result(r))
     if okset != sorted(order):
         return f"bookkeeping: transactions answering `tx ok` {okset} are not the committed ones {sorted(order)}"
     want = ([flat[tk] for tk in order], o["snap"], o["wf"])
@@ -586,11 +747,11 @@ def oracle(case, li):
         return ("not-serializable: no one-at-a-time order of the committed transactions " + str(order) +
                 " gives these results and this final map; against the commit order: " + "; ".join(diff))
     STATS[how] = STATS.get(how, 0) + 1
-    if o["wf"] != "wf true true true":
+    if o["wf"] != "wf true true true" and "raw" not in sc.tags:
         return f"not-wf: final map is not well formed: {o['wf']}"
-    if any(not r.startswith("tx ok") for r in flat.values()):
+    if any(not committed_result(r) for r in flat.values()):
         un = explain_errors(sc, o, case.meta.get("serial_order", order))
-        STATS["error_results"] = STATS.get("error_results", 0) + sum(1 for r in flat.values() if not r.startswith("tx ok"))
+        STATS["error_results"] = STATS.get("error_results", 0) + sum(1 for r in flat.values() if not committed_result(r))
         if un:
             STATS["unexplained_errors"] = STATS.get("unexplained_errors", 0) + len(un)
             STATS.setdefault("unexplained_error_examples", [])
@@ -621,6 +782,8 @@ def _threads_of(lines):
             cur.append(ln)
         elif not threads:
             init.append(ln)
+        else:
+            threads[-1].append([ln])
     return init, threads
 
 
@@ -778,7 +941,7 @@ def check_scenarios(binary, scs, jobs=4):
             f["outcomes"] += sm["distinct_outcomes"]
             f["retries"] += sm["retries"]
         for k, o in enumerate(r["outcomes"]):
-            order = [tuple(x) for x in o["commit_order"]]
+            order = commit_order(o)
             cases.append(Case(f"{s.name}#{k}", seq_script(s, order), oracle="c07",
                               meta={"sig": "+".join(sorted(s.tags)), "scenario": s, "outcome": o}))
     camp = hv.campaign(cases, oracle, max_report=20)
@@ -797,7 +960,7 @@ def check_scenarios(binary, scs, jobs=4):
         rp["outcome"] = o
         rp["witness_schedule"] = o["witness"]
         rp["initial_snap"] = inits.get(s.name, "")
-        rp["sequential_snap"] = parse_seq(s, [tuple(x) for x in o["commit_order"]], rp.get("impl_output", []))[1]
+        rp["sequential_snap"] = parse_seq(s, commit_order(o), rp.get("impl_output", []))[1]
         rp["replay_cmd"] = f"printf '%s\\n' <scenario_lines> | {HCSCHED}   (one schedule, with the event trace); sequential reference: " \
                            f"printf '%s\\n' <input_lines> | {hv.HCIMPL_PATH}"
     violations += camp["violations"]
@@ -808,6 +971,7 @@ def check_scenarios(binary, scs, jobs=4):
     st["error_results"] = STATS.get("error_results", 0)
     st["unexplained_errors"] = STATS.get("unexplained_errors", 0)
     st["unexplained_error_examples"] = STATS.get("unexplained_error_examples", [])
+    st["calls_with_several_commits"] = STATS.get("calls_with_several_commits", 0)
     samples = []
     for s in scs[:400]:
         r = res[s.name]
